@@ -127,6 +127,56 @@ impl BoundSet {
         true
     }
 
+    /// The lowest version this interval is satisfied by, if there is one.
+    fn min_version(&self) -> Option<Version> {
+        use Bound::*;
+        use Predicate::*;
+
+        // Prereleases of `candidate`'s major.minor.patch sort below it, but they only
+        // satisfy the interval when its upper bound is a prerelease of the same tuple.
+        let upper_opts_in = |candidate: &Version| match self.upper.as_ref() {
+            Upper(Including(upper)) | Upper(Excluding(upper)) => {
+                upper.is_prerelease()
+                    && upper.major == candidate.major
+                    && upper.minor == candidate.minor
+                    && upper.patch == candidate.patch
+            }
+            _ => false,
+        };
+
+        let candidate = match self.lower.as_ref() {
+            Lower(Including(v)) => v.clone(),
+            Lower(Excluding(v)) => {
+                let mut v = v.clone();
+                if v.is_prerelease() {
+                    v.pre_release.push(Identifier::Numeric(0))
+                } else {
+                    v.patch += 1;
+                    if upper_opts_in(&v) {
+                        v.pre_release.push(Identifier::Numeric(0))
+                    }
+                }
+                v
+            }
+            Lower(Unbounded) => {
+                let mut zero = Version::from((0, 0, 0));
+                if upper_opts_in(&zero) {
+                    zero.pre_release.push(Identifier::Numeric(0))
+                }
+                zero
+            }
+            Upper(_) => return None,
+        };
+
+        // Nothing lies between the lower bound and the candidate, so an interval
+        // that rejects the candidate is not satisfied by any version.
+        if self.satisfies(&candidate) {
+            Some(candidate)
+        } else {
+            None
+        }
+    }
+
     fn allows_all(&self, other: &BoundSet) -> bool {
         self.lower <= other.lower && other.upper <= self.upper
     }
@@ -497,38 +547,7 @@ impl Range {
     Return the lowest [Version] that can possibly match the given range.
     */
     pub fn min_version(&self) -> Option<Version> {
-        if let Some(min_bound) = self.0.iter().map(|range| &range.lower).min() {
-            let min_bound = min_bound.as_ref();
-            match min_bound {
-                Bound::Lower(pred) => match pred {
-                    Predicate::Including(v) => Some(v.clone()),
-                    Predicate::Excluding(v) => {
-                        let mut v = v.clone();
-                        if v.is_prerelease() {
-                            v.pre_release.push(Identifier::Numeric(0))
-                        } else {
-                            v.patch += 1;
-                        }
-                        Some(v)
-                    }
-                    Predicate::Unbounded => {
-                        let mut zero = Version::from((0, 0, 0));
-                        if self.satisfies(&zero) {
-                            return Some(zero);
-                        }
-
-                        zero.pre_release.push(Identifier::Numeric(0));
-                        if self.satisfies(&zero) {
-                            return Some(zero);
-                        }
-                        None
-                    }
-                },
-                Bound::Upper(_) => None,
-            }
-        } else {
-            None
-        }
+        self.0.iter().filter_map(BoundSet::min_version).min()
     }
 }
 
